@@ -105,6 +105,9 @@ func c02(r *Report) propMeta {
 	r.NotAfter("resolve-before-expiry (invariant behind the accepted MustGetRequest panic)", "x/oracle.EndBlocker", CallEff("Keeper.ResolveRequest"), CallEff("Keeper.ProcessExpiredRequests"))
 	r.NotAfter("aggregate-before-expiry (invariant behind the accepted MustGetSigningAttempt panic)", "x/tss/keeper.Keeper.HandleSigningEndBlock", CallEff("Keeper.AggregatePartialSignatures"), CallEff("Keeper.HandleExpiredSignings"))
 
+	r.Rule("C02.R9", "E16 unsigned-subtraction census")
+	r.UnsignedSubCensus("usub", fnSet(roots.Msg, roots.ABCI, roots.IBC, roots.Hook, roots.Ante), c02UsubAllow, 8)
+
 	r.Rule("C02.R8", "trusted base cross-checked against the dependency source")
 	r.TrustedBase("trusted-base")
 
@@ -150,7 +153,7 @@ func c02(r *Report) propMeta {
 			"R2 every explicit panic / Must* call reachable without a recover barrier from a begin/end-block root is in the frozen accepted table (a new one fails with its call path)",
 			"R3 signing creation / packet sending reached from end-block sits under a CacheContext whose writeFn is gated by err==nil, and cross-module routes sit under a defer-recover that assigns the named error result",
 			"R4 orderBeginBlockers/orderEndBlockers are literals of constants containing every module that implements Begin/EndBlock exactly once",
-			"R8 the two atomicity axioms (baseapp.runTx branch-and-write-on-success under recover; ibc-go RecvPacket cache-and-write-on-successful-ack) are read off the dependency source at the go.mod versions", "R7 every error that begin/end-block code tests and then does not propagate is in a frozen, justified table (16 sites today); a new swallowed error fails with its call path", "R6 every governance parameter that consensus-reachable code divides by (integer / or %) is validated positive, and every one used as a percentage (NewDecWithPrec(x,2)) is validated <= 100 in its Params.Validate (finding F3, fixed)", "R5 bandrng.NewRng is called only by the two committee selectors and its inputs derive only from the rolling seed, the id/nonce parameter and the chain id",
+			"R9 every unsigned subtraction in consensus-reachable repo code is implied non-wrapping by the comparisons on all paths to it (constants included) or is one of the reviewed data-structure invariants (a wrapped value ends as an out-of-range index, an endless loop or a silently bypassed bound)", "R8 the two atomicity axioms (baseapp.runTx branch-and-write-on-success under recover; ibc-go RecvPacket cache-and-write-on-successful-ack) are read off the dependency source at the go.mod versions", "R7 every error that begin/end-block code tests and then does not propagate is in a frozen, justified table (16 sites today); a new swallowed error fails with its call path", "R6 every governance parameter that consensus-reachable code divides by (integer / or %) is validated positive, and every one used as a percentage (NewDecWithPrec(x,2)) is validated <= 100 in its Params.Validate (finding F3, fixed)", "R5 bandrng.NewRng is called only by the two committee selectors and its inputs derive only from the rolling seed, the id/nonce parameter and the chain id",
 		},
 		Undecided: []string{"feasibility of the accepted panic sites (each rests on a store invariant recorded in the table, not proven)", "determinism of dependencies (SDK, go-owasm, IAVL)", "equality of gas across nodes beyond the absence of nondeterministic constructs"},
 		Assume:    []string{"begin/end-block panics are not recovered by the SDK; message panics are (runTx)", "VTA call graph over-approximates dynamic dispatch in repo code", "KV iterators are ordered"},
@@ -291,4 +294,12 @@ func c02Order(r *Report, roots *Roots) {
 	}
 	r.Note("begin order: %v", lists["orderBeginBlockers"])
 	r.Note("end order: %v", lists["orderEndBlockers"])
+}
+
+var c02UsubAllow = []usubAllow{
+	{"x/tss/keeper.Keeper.EnqueueDEs", 1, "Tail - Head: the queue invariant Head <= Tail (Head only advances in DequeueDE under Head < Tail; C05.R4)"},
+	{"x/tss/keeper.Keeper.GetRandomMembers", 3, "members_size - i (- 1): i < Threshold <= members_size is checked before the loop (C09.R3)"},
+	{"x/tss/keeper.Keeper.HandleExpiredGroups", 1, "groupID - 1: groupID starts at lastExpired + 1 >= 1"},
+	{"x/tss/keeper.msgServer.SubmitDKGRound2", 1, "group.Size_ - 1: groups are created with at least one member (CreateGroup rejects empty member lists)"},
+	{"x/tss/types.FindMemberSlot", 2, "to - 1 (- 1): member ids start at 1 (ValidateBasic rejects id 0; ids are assigned from 1) and from != to"},
 }
